@@ -373,4 +373,37 @@ theorem bookDoc_parseDoc (lines : List Bytes) (doc : Doc) (h : bookDoc lines = s
     rw [parseDoc_acc ls lines ⟨[], []⟩ hl, bookTable_eq_fold]
     simp
 
+/-! ### the FILE entry point -/
+
+theorem pyLinesAux_eq : ∀ (n : Nat) (b cur : Bytes), b.length ≤ n → (∀ c ∈ b, pyExoticSep c = false) →
+    pyLinesAux cur b = fileLinesAux cur b := by
+  intro n
+  induction n with
+  | zero =>
+    intro b cur hl _
+    cases b with
+    | nil => simp [pyLinesAux, fileLinesAux]
+    | cons c t => simp at hl
+  | succ n ih =>
+    intro b cur hl hx
+    match b, hl, hx with
+    | [], _, _ => simp [pyLinesAux, fileLinesAux]
+    | [c], _, hx =>
+      have hc : pyExoticSep c = false := hx c (by simp)
+      simp [pyLinesAux, fileLinesAux, hc]
+    | c :: d :: t, hl, hx =>
+      have hc : pyExoticSep c = false := hx c (by simp)
+      have ht : ∀ c' ∈ d :: t, pyExoticSep c' = false := fun c' h => hx c' (List.mem_cons_of_mem _ h)
+      have ht' : ∀ c' ∈ t, pyExoticSep c' = false := fun c' h => ht c' (List.mem_cons_of_mem _ h)
+      have hlt : (d :: t).length ≤ n := by simp at hl ⊢; omega
+      have hlt' : t.length ≤ n := by simp at hl; omega
+      rw [pyLinesAux, fileLinesAux]
+      simp only [hc, Bool.or_false, decide_eq_true_eq, ih t [] hlt' ht', ih (d :: t) [] hlt ht,
+        ih (d :: t) (c :: cur) hlt ht]
+
+/-- **Python's line splitting of the file is the by-the-book one** on every file that holds none of the control
+bytes VT, FF, FS, GS, RS (which `str.splitlines` also treats as line ends: dialect) -/
+theorem pyLines_eq_fileLines (b : Bytes) (h : ∀ c ∈ b, pyExoticSep c = false) : pyLines b = fileLines b :=
+  pyLinesAux_eq b.length b [] (Nat.le_refl _) h
+
 end Reamber.BMS
